@@ -7,7 +7,7 @@
 //! empty level-3 table under p4 slot j4 (a table left behind by unmap); POOL[6] = level-2 table under
 //! POOL[5] slot i3 holding only a 2MiB leaf (optional); POOL[7] unused.  Level-1 slots i1 / n1 of POOL[3] and
 //! i1 of POOL[4] are symbolic (leaf or empty); optionally level-3 slot j3 of POOL[1] holds a 1GiB leaf.
-use super::mapped::{compose, mapper};
+use super::mapped::{compose, mapper, rmapper, RECURSIVE_INDEX};
 use super::*;
 
 #[derive(Clone, Copy)]
@@ -92,6 +92,15 @@ fn overlaps(range: (u64, u64), base: u64, size_pages: u64) -> bool {
 }
 
 pub fn cleanup(c: CInst) {
+    cleanup_with(c, false)
+}
+/// the same obligations for RecursivePageTable (S-ptr stub = software MMU; the recursive slot links the
+/// level-4 table to itself and must be skipped: nothing "under" it may be visited or freed)
+pub fn cleanup_recursive(c: CInst) {
+    cleanup_with(c, true)
+}
+
+fn cleanup_with(c: CInst, recursive: bool) {
     #[cfg(test)]
     unsafe {
         NFREED = 0;
@@ -112,6 +121,7 @@ pub fn cleanup(c: CInst) {
     set_raw(2, i2, table_phys(3) | par);
     set_raw(2, j2, table_phys(4) | par);
     set_raw(0, j4, table_phys(5) | par | U);
+    set_raw(0, RECURSIVE_INDEX, table_phys(0) | P | W);
     if c.huge3 {
         set_raw(1, j3, 0x0000_0009_0000_0000 | P | PS | W);
     }
@@ -153,18 +163,28 @@ pub fn cleanup(c: CInst) {
     let free6 = false; // holds a huge leaf
     let _ = r6;
     // ---- the call
-    let mut m = mapper();
     let mut d = LogDealloc;
     kani::cover!(true);
     unsafe {
-        if c.whole {
-            m.clean_up(&mut d);
+        let s = Page::<Size4KiB>::containing_address(VirtAddr::new_unsafe(c.start));
+        let e = Page::<Size4KiB>::containing_address(VirtAddr::new_unsafe(c.end));
+        if recursive {
+            let mut m = rmapper();
+            if c.whole {
+                m.clean_up(&mut d);
+            } else {
+                m.clean_up_addr_range(Page::range_inclusive(s, e), &mut d);
+            }
         } else {
-            let s = Page::<Size4KiB>::containing_address(VirtAddr::new_unsafe(c.start));
-            let e = Page::<Size4KiB>::containing_address(VirtAddr::new_unsafe(c.end));
-            m.clean_up_addr_range(Page::range_inclusive(s, e), &mut d);
+            let mut m = mapper();
+            if c.whole {
+                m.clean_up(&mut d);
+            } else {
+                m.clean_up_addr_range(Page::range_inclusive(s, e), &mut d);
+            }
         }
     }
+    vp!(C10, raw(0, RECURSIVE_INDEX) == table_phys(0) | P | W, "clean_up modified the recursive slot of the level-4 table");
     // ---- exactly the expected set, each once
     let want = [(1usize, free1), (2, free2), (3, free3), (4, free4), (5, free5), (6, free6)];
     let mut w = 0;
@@ -213,20 +233,6 @@ pub fn cleanup(c: CInst) {
     if !r1 {
         vp!(C10, raw(0, i4) == table_phys(1) | par && raw(1, i3) == table_phys(2) | par, "clean_up touched a table that does not overlap the range");
     }
-    // ---- repeating the clean-up deallocates nothing
-    if !c.repeat {
-        return;
-    }
-    let n1st = unsafe { NFREED };
-    unsafe {
-        if c.whole {
-            m.clean_up(&mut d);
-        } else {
-            let s = Page::<Size4KiB>::containing_address(VirtAddr::new_unsafe(c.start));
-            let e = Page::<Size4KiB>::containing_address(VirtAddr::new_unsafe(c.end));
-            m.clean_up_addr_range(Page::range_inclusive(s, e), &mut d);
-        }
-    }
-    vp!(C10, unsafe { NFREED } == n1st, "repeating the clean-up deallocated something");
+
 }
 
